@@ -272,6 +272,12 @@ Definition ok_constants (c : list (string * string) * list (string * string) * l
   list_eqb pair_eqb (sort_kv (enum_constants (table_fn norm_t) (table_fn norm2_t) names values)) obs.
 Definition mismatches_constants := mismatches ok_constants.
 
+(** the old-enum-conflicts arm: pathname table observed from SchemaNameToTypeName . PathToTypeName *)
+Definition ok_constants_old (c : list (string * string) * list (string * string) * list string * list string * list (string * string)) : bool :=
+  let '(norm_t, path_t, names, values, obs) := c in
+  list_eqb pair_eqb (sort_kv (enum_constants_old (table_fn norm_t) (table_fn path_t) names values)) obs.
+Definition mismatches_constants_old := mismatches ok_constants_old.
+
 (** literal fidelity: observed = the value go/parser + strconv read back from the emitted literal *)
 Definition ok_literal (c : string * string) : bool :=
   let '(lit, v) := c in opt_eqb String.eqb (go_unquote lit) (Some v) && String.eqb (quote v) lit.
@@ -401,6 +407,12 @@ Definition ok_names (c : list (N * cls * (N * cls)) * (list N * list N * list N 
      | None => sanitize_panics (map out s)
      end.
 Definition mismatches_names := mismatches ok_names.
+
+(** the rename chain of an enum constant on an ASCII name: observed = code points of
+    SchemaNameToTypeName (SanitizeGoIdentity (SchemaNameToTypeName name)) *)
+Definition ok_enum_chain (c : string * list N) : bool :=
+  let '(name, obs) := c in codes_eqb (map fst (enum_name_chain name)) obs.
+Definition mismatches_enum_chain := mismatches ok_enum_chain.
 
 (** a case: the (name, definition) numbers handed to GenerateTypes and the names it emitted (None = error) *)
 Definition ok_dedup (c : list (nat * nat) * option (list nat)) : bool :=
